@@ -2,13 +2,51 @@
   Lemmas for C12, part 27: the SHAPE of the result of `clone_with_prefixes` on an element — the clone
   is a parentless element `c` whose children are the children `A ++ B` of `clone_node`'s result
   (`A` the namespace nodes) with new declaration leaves `New` in between; every declaration of the
-  clone is one of the copy or an entry of `order` whose prefix the copy does not declare.
+  clone is one of the copy or an entry of `order` whose prefix the copy does not declare, and no
+  prefix is declared twice.
   (First half of the proof of `cloneWithPrefixes_serialises`, exported.)
 -/
 import XotModel.Lemmas.FclonePrefix8
 
 namespace XotModel
 open HTree
+
+/-- The loop never declares a prefix twice. -/
+theorem addSpec_nodup : ∀ (order : List (Nat × Nat)) (A B : List HTree) (n : Nat),
+    (∀ x ∈ A, (x.value.category == Category.namespace) = true) →
+    (∀ y, B.head? = some y → (y.value.category == Category.namespace) = false) →
+    ((A.filterMap (fun k => fcNsPair k.value)).map Prod.fst).Nodup →
+    ((declsOfKids (addSpec (A ++ B) n order).1).map Prod.fst).Nodup
+  | [], A, B, n, hA, hB, h => by
+    simp only [addSpec]
+    rw [declsOfKids_split A B hA hB]
+    exact h
+  | (p, ns) :: rest, A, B, n, hA, hB, h => by
+    obtain ⟨ht, hd⟩ := takeWhile_split (fun c : HTree => c.value.category == .namespace) A B hA hB
+    simp only [addSpec]
+    rw [ht, hd]
+    by_cases hs : (A.find? (fun c => Forest.entryKey c.value == p)).isSome = true
+    · rw [if_pos hs]
+      exact addSpec_nodup rest A B n hA hB h
+    · rw [if_neg hs]
+      have hA' : ∀ x ∈ A ++ [HTree.node n (.namespace p ns) []],
+          (x.value.category == Category.namespace) = true := by
+        intro x hx
+        rcases List.mem_append.mp hx with h | h
+        · exact hA x h
+        · simp at h; subst h; rfl
+      have e : (A ++ [HTree.node n (.namespace p ns) []]).filterMap (fun k => fcNsPair k.value) =
+          A.filterMap (fun k => fcNsPair k.value) ++ [(p, ns)] := by
+        simp [List.filterMap_append, fcNsPair, HTree.value]
+      apply addSpec_nodup rest (A ++ [HTree.node n (.namespace p ns) []]) B (n + 1) hA' hB
+      rw [e, List.map_append, List.nodup_append]
+      refine ⟨h, by simp, ?_⟩
+      intro x hx y hy
+      simp only [List.map_cons, List.map_nil, List.mem_singleton] at hy
+      subst hy
+      intro e'
+      obtain ⟨b, hb, hb1⟩ := List.mem_map.mp hx
+      exact hs ((find_key_iff A hA _).mpr ⟨b, hb, by rw [hb1, e']⟩)
 
 theorem cloneWithPrefixes_shape (f : Forest) (inv : f.Inv)
     (node : Nat) (hs : Nat) (name : Nat) (Ks : List HTree) (rest : List HTree)
@@ -24,7 +62,9 @@ theorem cloneWithPrefixes_shape (f : Forest) (inv : f.Inv)
       erase (.node c (.element name) (A ++ B)) =
         expectedClone f.consolidation (erase (.node hs (.element name) Ks)) ∧
       (∀ b ∈ declsOfKids (A ++ New ++ B), b ∈ A.filterMap (fun k => fcNsPair k.value) ∨
-        (b ∈ order ∧ ∀ x ∈ A.filterMap (fun k => fcNsPair k.value), x.1 ≠ b.1)) := by
+        (b ∈ order ∧ ∀ x ∈ A.filterMap (fun k => fcNsPair k.value), x.1 ≠ b.1)) ∧
+      (((A.filterMap (fun k => fcNsPair k.value)).map Prod.fst).Nodup →
+        ((declsOfKids (A ++ New ++ B)).map Prod.fst).Nodup) := by
   obtain ⟨hget, r, hr, hp⟩ := Forest.get?_of_pathTo hpath
   obtain ⟨C, f1, h1, h2, h3, h4, h5, h6, h7, h8, h9, h10⟩ :=
     cloneNode_full f inv node _ hget
@@ -65,7 +105,8 @@ theorem cloneWithPrefixes_shape (f : Forest) (inv : f.Inv)
   subst hsplit
   obtain ⟨New, hNew, hshape⟩ := addSpec_shape order A B f1.next hA hB
   have hsub := addSpec_decls_sub order A B f1.next hA hB
-  rw [hshape] at hg2 hp2 hsub hr2
-  exact ⟨f2, c, A, New, B, hres, hr2, hg2, hp2, hA, hB, hNew, h6', hsub⟩
+  have hnodup := addSpec_nodup order A B f1.next hA hB
+  rw [hshape] at hg2 hp2 hsub hr2 hnodup
+  exact ⟨f2, c, A, New, B, hres, hr2, hg2, hp2, hA, hB, hNew, h6', hsub, hnodup⟩
 
 end XotModel
